@@ -809,14 +809,16 @@ class SpatialPDF(
         ra = tdm.get_data('ra')
         dec = tdm.get_data('dec')
 
-        # Check if all the data is within the right-ascension range.
-        if np.any((ra < ra_axis.vmin) | (ra > ra_axis.vmax)):
+        # Check if all the data is within the right-ascension range. NaN values
+        # are not within the range.
+        if np.any(~((ra >= ra_axis.vmin) & (ra <= ra_axis.vmax))):
             raise ValueError(
                 'Some data is outside the right-ascension range '
                 f'({ra_axis.vmin:.3f}, {ra_axis.vmax:.3f})!')
 
-        # Check if all the data is within the declination range.
-        if np.any((dec < dec_axis.vmin) | (dec > dec_axis.vmax)):
+        # Check if all the data is within the declination range. NaN values
+        # are not within the range.
+        if np.any(~((dec >= dec_axis.vmin) & (dec <= dec_axis.vmax))):
             raise ValueError(
                 'Some data is outside the declination range '
                 f'({dec_axis.vmin:.3f}, {dec_axis.vmax:.3f})!')
@@ -1045,8 +1047,9 @@ class TimePDF(
 
         time = tdm.get_data('time')
 
-        if np.any((time < time_axis.vmin) |
-                  (time > time_axis.vmax)):
+        # NaN values are not within the time range.
+        if np.any(~((time >= time_axis.vmin) &
+                    (time <= time_axis.vmax))):
             raise ValueError(
                 'Some trial data is outside the time range '
                 f'[{time_axis.vmin:.3f}, {time_axis.vmax:.3f}]!')
@@ -1329,7 +1332,8 @@ class MultiDimGridPDF(
         """
         for axis in self._axes:
             data = tdm.get_data(axis.name)
-            m = (data < axis.vmin) | (data > axis.vmax)
+            # NaN values are not within the range of the axis.
+            m = ~((data >= axis.vmin) & (data <= axis.vmax))
             if np.any(m):
                 raise ValueError(
                     f'Some of the trial data for PDF axis "{axis.name}" is out'
